@@ -306,6 +306,8 @@ pub struct BackendPlan {
     pub stats: Arc<PipeStats>,
     /// bytes appended to every value reply
     pub reply_pad: usize,
+    /// 0 = healthy, 1 = refuse, 2 = accept and never answer: what attempts beyond `conns` meet
+    pub tail: u8,
 }
 
 pub struct ByteConnFactory {
@@ -373,7 +375,11 @@ impl ConnFactory for ByteConnFactory {
             let faults = {
                 let mut c = plan.conns.lock();
                 if c.is_empty() {
-                    Some(plan.default.clone())
+                    match plan.tail {
+                        1 => None,
+                        2 => Some(PipeFaults { stall_ab: Some((0, 3_600_000)), ..plan.default.clone() }),
+                        _ => Some(plan.default.clone()),
+                    }
                 } else {
                     c.remove(0)
                 }
@@ -489,8 +495,11 @@ impl Check for ConnCheck {
                         });
                     }
                 }
+                // what every connection attempt after the listed ones meets: a healthy backend, one
+                // that refuses for good, or one that accepts and never answers
+                let tail = if level > 0 { *rng.pick(&["good", "good", "good", "good", "refuse", "blackhole"]) } else { "good" };
                 json!({
-                    "engine": "conn", "mode": "pipeline", "seed": seed,
+                    "engine": "conn", "mode": "pipeline", "seed": seed, "tail": tail,
                     "cfg": {"n": n, "batch": rng.below(3), "backend_conn_num": backend_conn_num, "value_size": value_size,
                             "client_frag": (*rng.pick(&[1u64, 2, 7, 64, 4096])).max(n * reply_pad / 100_000), "backend_frag": (*rng.pick(&[1u64, 3, 17, 512, 8192])).max(n * reply_pad / 100_000), "delay_ms": *rng.pick(&[0u64, 0, 1, 5]), "buf": *rng.pick(&[7u64, 64, 1024, 65536]),
                             "reply_pad": reply_pad, "client_buf": *rng.pick(&[7u64, 64, 1024, 65536])},
@@ -540,8 +549,8 @@ impl Check for ConnCheck {
     fn meta(&self) -> Meta {
         let rule: &'static str = match self.prop {
             "C15" => "plan = pipeline of 1-8 generated RESP values (depth <= 4, nil bulk/array, empty, binary payloads with CR/LF, up to 300 B) encoded with /repo's encoder; (1) one-piece decoding equals the generated values and consumes exactly the bytes; (2) EVERY single split point (streams <= 160 B; 32 sampled ones beyond) and 8 random multi-cut schedules are fed incrementally to the session decoder (Box<RespPacket>), the RespVec decoder and the client-side optional-multi decoder: same packet sequence, consumed bytes == bytes of completed packets after every feed, indexed packets carry the original bytes; (3) 10 kinds of non-RESP damage (bad prefix, non-digit length, payload longer/shorter than declared, missing CR, LF only, negative lengths, trailing garbage inside CRLF) must give an error or keep waiting, never a value. One run in 8 repeats (1)-(2) through tokio Framed<RespCodec> over a chopped duplex stream with 1-16 byte fragments. Non-trivial = a pipeline with >=1 array and >=1 binary bulk string.",
-            "C08" => "plan = real proxy owning all slots on 1-3 byte-level backend connections to an echo backend (reply = function of the request's unique id); a client pipeline of 1-200 GET/SET requests (values 0-3500 B) written in 1-4096 byte fragments through the real handle_session; batching {disabled,fixed,dynamic}; backend streams fragmented (1-8192 B), delayed, 7 B-64 KiB buffers (backpressure), and per connection attempt one of: refused, reset at byte n of the request or reply stream, stall (50 ms-9 s, i.e. below/above the 3 s backend timeout) at byte n. One third fault-free. Oracle on the client byte stream with the harness's own RESP reader. Non-trivial = >=1 fault fired or pipeline >= 20; distinct = distinct (reply-class sequence, fault counters).",
-            _ => "plan = 1-6 hostile inputs on connection A of a real proxy (before/after metadata, fragmented): huge declared array/bulk lengths up to 2^63-1, nesting depth up to 100000, truncated packets, garbage, and well-formed commands of every family with extreme/missing/non-UTF-8 arguments (EVAL numkeys, UMFORWARD times, UMCTL SETCLUSTER/SETREPL/PRECHECK junk, CONFIG SET, CLUSTER KEYSLOT, AUTH, blocking pops with timeout 0/1, MSET odd arity ...); then connection B sends PING. Child under RLIMIT_AS 2 GiB, 8 MiB stack (as the production main thread), 20 s wall-clock watchdog. Non-trivial = the hostile connection was answered or closed and B was served.",
+            "C08" => "plan = real proxy owning all slots on 1-3 byte-level backend connections to an echo backend (reply = function of the request's unique id); a client pipeline of 1-200 GET/SET requests (values 0-3500 B, replies padded by 0-20000 B) written in 1-4096 byte fragments, by a client that reads while it writes through a 7 B-64 KiB pipe, through the real handle_session; batching {disabled,fixed,dynamic}; backend streams fragmented (1-8192 B), delayed, 7 B-64 KiB buffers (backpressure), and per connection attempt one of: refused, reset at byte n of the request or reply stream, stall (50 ms-9 s, i.e. below/above the 3 s backend timeout, or for good) at byte n; three quarters of the fault positions are drawn inside the byte streams the pipeline really produces; every attempt after the listed ones meets a healthy backend, one that refuses for good, or one that accepts and never answers. One third fault-free. Oracle on the client byte stream with the harness's own RESP reader. Non-trivial = >=1 fault fired or pipeline >= 20; distinct = distinct (reply-class sequence, fault counters).",
+            _ => "plan = 1-6 hostile inputs on connection A of a real proxy (before/after metadata, fragmented): huge declared array/bulk lengths up to 2^63-1, nesting depth up to 100000, truncated packets, garbage, and well-formed commands of every family with extreme/missing/non-UTF-8 arguments (EVAL numkeys, UMFORWARD times, UMCTL SETCLUSTER/SETREPL/PRECHECK junk, CONFIG SET, CLUSTER KEYSLOT, AUTH, blocking pops with timeout 0/1, MSET odd arity, huge slot ranges and range counts with and without migration tags, arguments that are not bulk strings for 26 commands, valid SETCLUSTER with unusual cluster names followed by CLUSTER NODES/SLOTS/INFO, slow log switched on followed by long multi-byte arguments ...), each on its own connection, every complete request of an input must be answered or the connection closed; then connection B sends PING. Child under RLIMIT_AS 2 GiB, 8 MiB stack (as the production main thread), 20 s wall-clock watchdog. Non-trivial = the hostile connection was answered or closed and B was served.",
         };
         Meta {
             level: "exploration",
@@ -875,7 +884,7 @@ async fn run_pipeline(plan: &Value, want_sample: bool) -> RunRecord {
     let default = PipeFaults { max_frag: cfg["backend_frag"].as_u64().unwrap_or(512) as usize, max_delay_ms: cfg["delay_ms"].as_u64().unwrap_or(0), buf: cfg["buf"].as_u64().unwrap_or(1024) as usize, ..Default::default() };
     let stats = Arc::new(PipeStats { ab: AtomicU64::new(0), ba: AtomicU64::new(0), resets: AtomicU64::new(0), stalls: AtomicU64::new(0), frags: AtomicU64::new(0) });
     let conns: Vec<Option<PipeFaults>> = plan["conns"].as_array().map(|a| a.iter().map(|v| faults_of(v, cfg)).collect()).unwrap_or_default();
-    let bplan = Arc::new(BackendPlan { seed, conns: Mutex::new(conns), default, attempts: AtomicU64::new(0), refused: AtomicU64::new(0), executed: Mutex::new(vec![]), stats: stats.clone(), reply_pad: cfg["reply_pad"].as_u64().unwrap_or(0) as usize });
+    let bplan = Arc::new(BackendPlan { seed, conns: Mutex::new(conns), default, attempts: AtomicU64::new(0), refused: AtomicU64::new(0), executed: Mutex::new(vec![]), stats: stats.clone(), reply_pad: cfg["reply_pad"].as_u64().unwrap_or(0) as usize, tail: match plan["tail"].as_str() { Some("refuse") => 1, Some("blackhole") => 2, _ => 0 } });
     let pp = ProxyParams { backend_conn_num: cfg["backend_conn_num"].as_u64().unwrap_or(1) as usize, batch: cfg["batch"].as_u64().unwrap_or(0) as u8, ..Default::default() };
     let session = spawn_byte_proxy(&net, &pp, bplan.clone());
     let cstats = Arc::new(PipeStats { ab: AtomicU64::new(0), ba: AtomicU64::new(0), resets: AtomicU64::new(0), stalls: AtomicU64::new(0), frags: AtomicU64::new(0) });
@@ -1063,7 +1072,10 @@ fn hostile_bytes(kind: u64, a: u64, b: u64) -> (String, Vec<u8>) {
         8 => ("umforward-huge-times".into(), cmd_bytes(&[b"UMFORWARD", big.to_string().as_bytes(), b"GET", b"k"])),
         9 => ("umforward-junk".into(), cmd_bytes(&[b"UMFORWARD", &junk, b"GET"])),
         10 => ("umctl-setcluster-junk".into(), cmd_bytes(&[b"UMCTL", b"SETCLUSTER", b"v2", &junk, b"NOFLAG", b"c0", b"10.0.0.1:6000", big.to_string().as_bytes(), b"0-16383"])),
-        11 => match b % 3 {
+        11 => match b % 6 {
+            3 => ("umctl-setcluster-huge-range-count".into(), cmd_bytes(&[b"UMCTL", b"SETCLUSTER", b"v2", b"1000011", b"FORCE", b"c0", b"10.0.0.1:6000", big.to_string().as_bytes(), b"0-16383"])),
+            4 => ("umctl-setcluster-huge-range-count".into(), cmd_bytes(&[b"UMCTL", b"SETCLUSTER", b"v2", b"1000012", b"FORCE", b"c0", b"10.0.0.1:6000", b"1", b"0-8000", b"PEER", b"10.0.9.1:7000", big.to_string().as_bytes(), b"8001-16383"])),
+            5 => ("umctl-setcluster-huge-range-count".into(), cmd_bytes(&[b"UMCTL", b"SETCLUSTER", b"v2", b"1000013", b"FORCE", b"c0", b"10.0.0.1:6000", b"IMPORTING", big.to_string().as_bytes(), b"0-100", b"7", b"10.0.9.1:7000", b"10.0.9.1:6000", b"10.0.0.1:7000", b"10.0.0.1:6000"])),
             0 => ("umctl-setcluster-huge-range".into(), cmd_bytes(&[b"UMCTL", b"SETCLUSTER", b"v2", b"9", b"NOFLAG", b"c0", b"10.0.0.1:6000", b"1", format!("0-{}", big).as_bytes()])),
             t => ("umctl-setcluster-huge-range-with-migration-tag".into(), cmd_bytes(&[b"UMCTL", b"SETCLUSTER", b"v2", b"1000009", b"FORCE", b"c0", b"10.0.0.1:6000", if t == 1 { b"MIGRATING".as_ref() } else { b"IMPORTING".as_ref() }, b"1", format!("0-{}", big).as_bytes(), b"7", b"10.0.0.1:7000", b"10.0.0.1:6000", b"10.0.9.1:7000", b"10.0.9.1:6000"])),
         },
@@ -1147,7 +1159,7 @@ async fn run_hostile(plan: &Value, want_sample: bool) -> RunRecord {
     let net = Net::new(seed, 2);
     let stats = Arc::new(PipeStats { ab: AtomicU64::new(0), ba: AtomicU64::new(0), resets: AtomicU64::new(0), stalls: AtomicU64::new(0), frags: AtomicU64::new(0) });
     let default = PipeFaults { max_frag: 4096, buf: 65536, ..Default::default() };
-    let bplan = Arc::new(BackendPlan { seed, conns: Mutex::new(vec![]), default, attempts: AtomicU64::new(0), refused: AtomicU64::new(0), executed: Mutex::new(vec![]), stats: stats.clone(), reply_pad: 0 });
+    let bplan = Arc::new(BackendPlan { seed, conns: Mutex::new(vec![]), default, attempts: AtomicU64::new(0), refused: AtomicU64::new(0), executed: Mutex::new(vec![]), stats: stats.clone(), reply_pad: 0, tail: 0 });
     let pp = ProxyParams { active_redirection: plan["active_redirection"].as_bool().unwrap_or(false), ..Default::default() };
     let session = spawn_byte_proxy(&net, &pp, bplan);
     let frag = plan["frag"].as_u64().unwrap_or(64) as usize;
